@@ -142,6 +142,23 @@ Theorem C16_udp_response_total : forall rq cfg m, exists r, udp_response rq cfg 
 Proof. exact top_udp_response_total. Qed.
 Print Assumptions C16_udp_response_total.
 
+(* ---- the datagram receive buffer ---- *)
+(* parsing only the octets received: a request is at least a header long and all
+   its questions lie within the datagram *)
+Theorem C16_dgram_received_only : dgram_parses_whole_buffer = false ->
+  forall d x, xreq_of_datagram d = Some x -> 12 + qs_len (x_qs x) <= len d.
+Proof. exact top_dgram_received_only. Qed.
+Print Assumptions C16_dgram_received_only.
+
+(* parsing the whole zero-padded buffer: a 12-octet datagram (STATUS, QDCOUNT
+   65535) is taken for 202 questions and answered by at least 512 octets *)
+Theorem C16_dgram_padding_refuted : dgram_parses_whole_buffer = true ->
+  exists x r, xreq_of_datagram pad_datagram = Some x /\ cnt (x_qs x) = 202 /\
+    udp_server x (Some 1232) (SvcOk (mk_response (x_base x) 144 0 1 15 0 11 None)) = Ok (Some r) /\
+    len pad_datagram = 12 /\ 512 <= mlen r.
+Proof. exact top_dgram_padding_refuted. Qed.
+Print Assumptions C16_dgram_padding_refuted.
+
 (* ---- the stream server (EDNS non-UDP arm, edns-tcp-keepalive) ---- *)
 Theorem C16_tcp_server_framed : forall x idle svc r,
   12 + qs_len (x_qs x) + 11 <= 65535 -> (forall m, svc = SvcOk m -> mlen m <= 65535) ->
